@@ -128,12 +128,14 @@ def generate(seed, tier):
             op['src'] = text
             op['bad'] = bk
         if kind == 'eval':
+            if ro.random() < 0.08:
+                op['no_names'] = True       # the names argument is omitted altogether
             if faulty and rf.random() < 0.12:
                 op['budget'] = rf.randint(1, 30)
             if faulty and rf.random() < 0.08 and not bad:
                 op['src'] = 're(%s) ; %s' % (lang.render_string(ro.choice(pool)[1]) if '\\' not in ro.choice(pool)[1] and '\n' not in ro.choice(pool)[1] else '"1 + 1"', src) if False else op['src']
                 op['reenter'] = ro.choice(pool)[1]
-            if not bad and not op.get('budget'):
+            if not bad and not op.get('budget') and not op.get('no_names'):
                 m.run(src_prog)
         if kind == 'list_names' and faulty and rf.random() < 0.45:
             op['consume'] = rf.randint(0, 4)
@@ -208,7 +210,10 @@ def _call_inner(U, op, names, p, src, kind):
                 names = names if names is not None else {}
                 names['re'] = re
                 src = 're()\n' + src
-            v = p.eval(src, names, **kw)
+            if op.get('no_names') and op.get('reenter') is None:
+                v = p.eval(src, **kw)
+            else:
+                v = p.eval(src, names, **kw)
             if op.get('reenter') is not None:
                 names.pop('re', None)
             return ['value', canon.canon(v, monitors.M.fn_names)]
